@@ -292,6 +292,36 @@ func encMethods(ms []string) string {
 
 func reqOp(m, u string) string { return "req m=" + proto.Enc(m) + " url=" + proto.Enc(u) }
 
+// caseVariant: the same URL with other letter case in a host label or a path segment (the proxy's map_reg
+// is case-sensitive; so must be whatever the engine matches)
+func caseVariant(r *prng.R, u string) string {
+	parts := strings.Split(u, "/")
+	switch r.Intn(4) {
+	case 0:
+		parts[0] = strings.ToUpper(parts[0])
+	case 1:
+		ls := strings.Split(parts[0], ".")
+		i := r.Intn(len(ls))
+		if ls[i] != "" {
+			ls[i] = strings.ToUpper(ls[i][:1]) + ls[i][1:]
+		}
+		parts[0] = strings.Join(ls, ".")
+	case 2:
+		if len(parts) > 1 {
+			i := r.Range(1, len(parts)-1)
+			parts[i] = strings.ToUpper(parts[i])
+		} else {
+			parts[0] = strings.ToUpper(parts[0])
+		}
+	default:
+		ls := strings.Split(parts[0], ".")
+		i := r.Intn(len(ls))
+		ls[i] = strings.ToUpper(ls[i])
+		parts[0] = strings.Join(ls, ".")
+	}
+	return strings.Join(parts, "/")
+}
+
 func genReqs(r *prng.R, pats []string, methods [][]string, n int) []string {
 	var ops []string
 	for k := 0; k < n; k++ {
@@ -299,6 +329,8 @@ func genReqs(r *prng.R, pats []string, methods [][]string, n int) []string {
 		u := instantiate(r, pats[i])
 		if r.Chance(40) {
 			u = mutateURL(r, u)
+		} else if r.Chance(15) {
+			u = caseVariant(r, u)
 		}
 		var m string
 		if r.Chance(65) {
@@ -340,6 +372,21 @@ func genFlowsCase(r *prng.R) []string {
 	return append(ops, genReqs(r, pats, methods, r.Range(6, 14))...)
 }
 
+func genFlags(r *prng.R, max int) string {
+	n := r.Intn(max + 1)
+	if n == 0 {
+		return "-"
+	}
+	fl := make([]string, n)
+	for i := range fl {
+		fl[i] = "0"
+		if r.Bool() {
+			fl[i] = "1"
+		}
+	}
+	return strings.Join(fl, ",")
+}
+
 func genPolicyCase(r *prng.R) []string {
 	ops := []string{"mode policy"}
 	k := pickKind(r)
@@ -357,13 +404,19 @@ func genPolicyCase(r *prng.R) []string {
 		// by-URL side table is C13's business (text vs parts key); keep one spelling per parameter here
 		p = strings.NewReplacer("{{id}}", "{id:int}", "{id}}", "{user.id}").Replace(p)
 		m := prng.Pick(r, methodsAll[:6])
-		on := 1
-		if r.Chance(12) {
-			on = 0
-		}
 		pats = append(pats, p)
 		methods = append(methods, []string{m})
-		ops = append(ops, fmt.Sprintf("policy name=p%d m=%s url=%s on=%d", i+1, m, proto.Enc(p), on))
+		if r.Chance(35) {
+			on := 1
+			if r.Chance(12) {
+				on = 0
+			}
+			ops = append(ops, fmt.Sprintf("policy name=p%d m=%s url=%s on=%d", i+1, m, proto.Enc(p), on))
+		} else {
+			// 0-3 remedies x 0-2 diagnoses, every combination and order of enabled flags
+			ops = append(ops, fmt.Sprintf("policy name=p%d m=%s url=%s r=%s d=%s", i+1, m, proto.Enc(p),
+				genFlags(r, 3), genFlags(r, 2)))
+		}
 	}
 	if r.Chance(4) {
 		ops = append(ops, "global on=1")
@@ -500,15 +553,67 @@ func enumerate(alphabet string, maxLen int, f func(string)) {
 	rec("", maxLen)
 }
 
-var malformed = []string{"fmt m=GET", "re e=a", "bogus", "flow name=f1", "req m=GET", "build now", "mode both", "policy name=p m=GET url=a.com"}
+// ---- L4: reload histories
+
+var reloadPool = []string{"GET@api.com/x", "POST@api.com/y", "GET@api.com/users/{id}", "HEAD@a.org/v1/*",
+	"PUT@api.com/a+b", "GET@{sub}.api.com/x", "GET@api.com/users/{uid}"}
+var reloadSteps = []int64{0, 1, 9999, 10000, 20000, 29999, 30000, 30001, 60000}
+
+func genReloadCase(r *prng.R) []string {
+	ops := []string{"mode reload"}
+	pool := append([]string(nil), reloadPool[:r.Range(3, len(reloadPool))]...)
+	genReq := func() string {
+		var eps []string
+		for _, e := range pool {
+			if r.Chance(55) {
+				f := strings.SplitN(e, "@", 2)
+				eps = append(eps, f[0]+"@"+proto.Enc(f[1]))
+			}
+		}
+		g := 0
+		if r.Chance(12) {
+			g = 1
+		}
+		l := "-"
+		if len(eps) > 0 {
+			l = strings.Join(eps, ";")
+		}
+		return fmt.Sprintf("reload g=%d eps=%s", g, l)
+	}
+	last := ""
+	for k := r.Range(2, 6); k > 0; k-- {
+		req := genReq()
+		if last != "" && r.Chance(35) {
+			req = last // the same configuration applied again
+		}
+		last = req
+		ops = append(ops, req)
+		if r.Chance(40) {
+			ops = append(ops, "managed?")
+		}
+		for j := r.Intn(3); j > 0; j-- {
+			ops = append(ops, fmt.Sprintf("advance ms=%d", prng.Pick(r, reloadSteps)))
+			if r.Chance(50) {
+				ops = append(ops, "managed?")
+			}
+		}
+	}
+	// let everything settle and look
+	ops = append(ops, fmt.Sprintf("advance ms=%d", prng.Pick(r, []int64{29999, 30000, 30001, 60000})), "managed?",
+		"advance ms=30000", "managed?")
+	return ops
+}
+
+var malformed = []string{"fmt m=GET", "re e=a", "bogus", "flow name=f1", "req m=GET", "build now", "mode both", "policy name=p m=GET url=a.com",
+	"reload g=0", "advance ms=x", "managed? now"}
 
 func gen(r *prng.R, f proto.Flags, emit func(proto.Case)) {
-	nFmt, nRe, nFlows, nPol, enumLen := 200, 500, 1500, 700, 3
+	nFmt, nRe, nFlows, nPol, enumLen, nReload := 200, 500, 1500, 700, 3, 150
 	if f.Tier == "thorough" {
-		nFmt, nRe, nFlows, nPol, enumLen = 3000, 8000, 30000, 12000, 4
+		nFmt, nRe, nFlows, nPol, enumLen, nReload = 3000, 8000, 30000, 12000, 4, 2500
 		engineCheckBudget = 3000
 	}
-	nFmt, nRe, nFlows, nPol = nFmt*f.Budget, nRe*f.Budget, nFlows*f.Budget, nPol*f.Budget
+	nFmt, nRe, nFlows, nPol, nReload = nFmt*f.Budget, nRe*f.Budget, nFlows*f.Budget, nPol*f.Budget, nReload*f.Budget
 	id := 0
 	out := func(prefix string, ops []string, rr *prng.R) {
 		if rr != nil && rr.Chance(3) {
@@ -533,6 +638,35 @@ func gen(r *prng.R, f proto.Flags, emit func(proto.Case)) {
 	for k := 0; k < nPol; k++ {
 		rr := r.Fork()
 		out("po", genPolicyCase(rr), rr)
+	}
+	// every combination and order of enabled flags of 0-3 remedies x 0-2 diagnoses on one endpoint
+	var flagLists func(max int) []string
+	flagLists = func(max int) []string {
+		out := []string{"-"}
+		var rec func(prefix []string, left int)
+		rec = func(prefix []string, left int) {
+			if len(prefix) > 0 {
+				out = append(out, strings.Join(prefix, ","))
+			}
+			if left == 0 {
+				return
+			}
+			for _, b := range []string{"0", "1"} {
+				rec(append(append([]string(nil), prefix...), b), left-1)
+			}
+		}
+		rec(nil, max)
+		return out
+	}
+	for _, rs := range flagLists(3) {
+		for _, ds := range flagLists(2) {
+			out("pe", []string{"mode policy", "policy name=p1 m=GET url=api.com/x r=" + rs + " d=" + ds,
+				"policy name=p2 m=POST url=api.com/y on=1", "build", "req m=GET url=api.com/x", "req m=POST url=api.com/y"}, nil)
+		}
+	}
+	for k := 0; k < nReload; k++ {
+		rr := r.Fork()
+		out("rl", genReloadCase(rr), rr)
 	}
 	// exhaustive: every expression of length <= enumLen over the metacharacter alphabet x fixed subjects
 	var batch []string
